@@ -11,7 +11,7 @@ pub fn generate(tier: &str, rng: &mut Rng) -> Vec<Spec> {
     let t = tier == "thorough"; let mut v = vec![];
     let alpha = [Rat::int(-2), Rat::int(0), Rat::int(1), Rat::int(3)];
     for k in KINDS {
-        for l in 0..=(if t { 6 } else { 5 }) { for xs in super::all_seqs(&alpha, l) { if !t && l == 5 && xs[0] == Rat::int(0) { continue; } v.push(Spec::new(k).with("xs", join_rats(&xs))); } }
+        for l in 0..=(if t { 6 } else { 5 }) { for xs in crate::util::all_seqs(&alpha, l) { if !t && l == 5 && xs[0] == Rat::int(0) { continue; } v.push(Spec::new(k).with("xs", join_rats(&xs))); } }
         for _ in 0..(if t { 600 } else { 60 }) {
             let len = rng.range(1, if t { 40 } else { 25 }) as usize;
             let xs: Vec<Rat> = (0..len).map(|_| Rat::new(rng.range(-12, 12) as i128, rng.range(1, 4) as i128)).collect();
